@@ -460,11 +460,21 @@ impl Ctx {
         let mut note = json!({});
         let mut out = "none".to_string();
         let mut wire_fmt = String::new();
-        let signer_names: Vec<String> = scn["ops"][0]["signers"].as_array().unwrap().iter().map(|x| x.as_str().unwrap().to_string()).collect();
+        let listed: Vec<String> = scn["ops"][0]["signers"].as_array().unwrap().iter().map(|x| x.as_str().unwrap().to_string()).collect();
+        // signature i of the specification: the builder keeps one signature per key (Lifecycle!Distinct keeps
+        // the LAST listing of a key), the constructor one per listing
+        let signer_names: Vec<String> = if scn["ops"][0]["op"] == "build" {
+            listed.iter().enumerate().filter(|(i, n)| !listed[i + 1..].contains(n)).map(|(_, n)| n.clone()).collect()
+        } else {
+            listed.clone()
+        };
         let km = &self.km;
         let pos_of = |b: &Metablock, i: usize| -> usize {
+            // the n-th signature carrying that signer's id, n = number of earlier listings of the same signer
             let want = km.idstr(&signer_names[i]);
-            b.signatures.iter().position(|s| kid_str(s.key_id()) == want).expect("signature of signer i")
+            let nth = signer_names[..i].iter().filter(|n| **n == signer_names[i]).count();
+            let all: Vec<usize> = b.signatures.iter().enumerate().filter(|(_, s)| kid_str(s.key_id()) == want).map(|(p, _)| p).collect();
+            *all.get(nth).or(all.last()).expect("signature of signer i")
         };
         for op in scn["ops"].as_array().unwrap() {
             match op["op"].as_str().unwrap() {
@@ -477,6 +487,12 @@ impl Ctx {
                     } else {
                         MetablockBuilder::from_metadata(base.clone().into_trait()).sign(&sks).unwrap().build()
                     };
+                    // the builder keeps one signature per key; the constructor one per listed key
+                    let distinct: std::collections::BTreeSet<&str> = names.iter().cloned().collect();
+                    let want = if c == "new" { names.len() } else { distinct.len() };
+                    if mb.signatures.len() != want {
+                        note["signature_count"] = json!({"got": mb.signatures.len(), "want": want});
+                    }
                     block = Some(mb);
                 }
                 "write" => {
@@ -570,7 +586,14 @@ impl Ctx {
         }
         // final verification
         let b = block.as_ref().unwrap();
-        let signers: Vec<String> = scn["ops"][0]["signers"].as_array().unwrap().iter().map(|x| x.as_str().unwrap().to_string()).collect();
+        let mut signers: Vec<String> = scn["ops"][0]["signers"].as_array().unwrap().iter().map(|x| x.as_str().unwrap().to_string()).collect();
+        let first = signers[0].clone();
+        signers.sort();
+        signers.dedup();
+        // the abstract key choices speak about the SET of signers; "one" / "redeclare" about the first listed
+        if let Some(p) = signers.iter().position(|s| *s == first) {
+            signers.swap(0, p);
+        }
         let other = ["k1", "k2", "k3", "kx"].iter().find(|k| !signers.iter().any(|s| s == *k)).unwrap().to_string();
         let kind_k = note["keys"].as_str().unwrap_or("signers").to_string();
         let mut keys: Vec<PublicKey> = signers.iter().map(|n| self.km.pk(n).clone()).collect();
